@@ -43,6 +43,10 @@ fn table() -> Vec<(&'static str, Options, Option<Value>)> {
         ("12ab", base().with_leading_digit_symbols(true), sy("12ab")), ("12", base().with_leading_digit_symbols(true), Some(Value::from(12))),
         ("1e3", base().with_leading_digit_symbols(true), Some(Value::from(1000.0))), ("15e-1", base().with_leading_digit_symbols(true), Some(Value::from(1.5))),
         ("1e3", base(), Some(Value::from(1000.0))), ("12", base(), Some(Value::from(12))),
+        ("-1a", base().with_leading_digit_symbols(true), None), ("+12ab", base().with_leading_digit_symbols(true), None), ("-1.5.6", Options::elisp(), None), ("-5", base().with_leading_digit_symbols(true), Some(Value::from(-5))),
+        ("+1e3", Options::elisp(), Some(Value::from(1000.0))), ("-", base().with_leading_digit_symbols(true), sy("-")), ("+", Options::elisp(), sy("+")),
+        ("nil", Options::elisp(), Some(Value::Null)), ("t", Options::elisp(), sy("t")), ("#nil", base(), Some(Value::Nil)), ("()", base().with_nil_symbol(NilSymbol::Special), Some(Value::Null)),
+        ("#t", base().with_t_symbol(TSymbol::True), Some(Value::Bool(true))), ("#f", Options::elisp(), Some(Value::Bool(false))),
         ("[a]", base(), Some(Value::list(vec![Value::symbol("a")]))), ("[a]", base().with_brackets(Brackets::Vector), Some(Value::Vector(vec![Value::symbol("a")].into()))),
         ("'a", base(), Some(Value::list(vec![Value::symbol("quote"), Value::symbol("a")]))), ("`a", Options::elisp(), Some(Value::list(vec![Value::symbol("quasiquote"), Value::symbol("a")]))),
         (",a", base(), Some(Value::list(vec![Value::symbol("unquote"), Value::symbol("a")]))), (",@a", Options::elisp(), Some(Value::list(vec![Value::symbol("unquote-splicing"), Value::symbol("a")]))),
@@ -65,12 +69,14 @@ fn check(case: &str) -> Option<String> {
     for k in 0..4 {
         if want.is_none() && k > 0 { continue; }
         let text = ctx(tok, k);
-        let got = from_str_custom(&text, o.clone());
-        match (&want, got) {
-            (None, Err(_)) => {}
-            (None, Ok(v)) => return Some(format!("{:?} should be an error under {:?}, got {}", text, o, v)),
-            (Some(w), Ok(v)) => { let w = wrap(w.clone(), k); if v != w { return Some(format!("{:?} under {:?} reads as {}, documented {}", text, o, v, w)); } }
-            (Some(w), Err(e)) => return Some(format!("{:?} under {:?} fails ({}), documented {}", text, o, e, w)),
+        // value API and location-tracking API: the options govern the same tokens in both
+        for (api, got) in [("value", from_str_custom(&text, o.clone())), ("datum", lexpr::datum::from_str_custom(&text, o.clone()).map(|d| d.value().clone())), ("datum/slice", lexpr::datum::from_slice_custom(text.as_bytes(), o.clone()).map(|d| d.value().clone()))] {
+            match (&want, got) {
+                (None, Err(_)) => {}
+                (None, Ok(v)) => return Some(format!("{:?} should be an error under {:?}, got {} ({} API)", text, o, v, api)),
+                (Some(w), Ok(v)) => { let w = wrap(w.clone(), k); if v != w { return Some(format!("{:?} under {:?} reads as {}, documented {} ({} API)", text, o, v, w, api)); } }
+                (Some(w), Err(e)) => return Some(format!("{:?} under {:?} fails ({}), documented {} ({} API)", text, o, e, w, api)),
+            }
         }
     }
     None
